@@ -251,17 +251,23 @@ def run(F, R, tier):
     sccs = tarjan(g)
     keypath = {f.key: f.path for f in P.fns.values()}
     cyc = set()
+    comp_of = {}
     for comp in sccs:
         if len(comp) > 1 or comp[0] in g[comp[0]]:
             # closures are folded into the function they are written in: turning a loop into `iter().map(|x| ..)` does not change
             # which functions recurse, and must not rename the cycle
             members = tuple(sorted(set(re.sub(r"(::\{closure\})+$", "", short(keypath.get(nodes[x]["key"], nodes[x]["key"]))) for x in comp)))
             cyc.add(members)
+            comp_of.setdefault(members, []).extend(comp)
     for members in sorted(cyc):
         key = "cycle:" + " <-> ".join(sorted(m.split("::", 1)[1] if "::" in m else m for m in members))
         ok = False
         why = "recursive cycle in the instance graph: %s" % ", ".join(members)
-        if key in R.reviewed:
+        member_keys = sorted(set(nodes[x]["key"] for x in comp_of[members]))
+        bounded = bounded_cycle(P, member_keys)
+        if bounded[0]:
+            ok, why = True, "bounded recursion: " + bounded[1]
+        elif key in R.reviewed:
             R.used_reviewed.append({"key": key, "reason": R.reviewed[key]["reason"]})
             ok, why = True, "reviewed-safe: " + R.reviewed[key]["reason"]
         R.inst("R16.4", key, ok, detail=why)
@@ -316,6 +322,73 @@ def size_sources(P, f, o):
                         if q:
                             work.append(q[0])
     return sorted(set(out))[:6]
+
+
+def bounded_cycle(P, keys):
+    """Rule (iv): a recursion cycle is bounded if every function on it has an integer `depth` parameter such that every call inside the
+    cycle passes <caller's depth> + c with c >= 0 (affine facts of the MIR analysis), every call with c > 0 passes a value whose
+    interval has an upper bound below the type maximum (i.e. a comparison against a constant guards it), and the calls with c = 0 alone
+    form no cycle.  Then each trip round any cycle increases depth by at least 1 and depth is bounded: finitely many trips."""
+    import itertools
+    fns = [P.fns.get(k) for k in keys]
+    if any(f is None for f in fns) or any(f.is_closure for f in fns):
+        return False, "a member is a closure or was not analysed"
+    cands = {f.key: [i for i in range(f.argc) if f.local_ty(i + 1) in M.INT] for f in fns}
+    if any(not c for c in cands.values()):
+        return False, "a member has no integer parameter"
+    edges = []
+    for f in fns:
+        for bi, cs in sorted(f.calls.items()):
+            if f.blocks[bi]["cleanup"]:
+                continue
+            for ce in cs:
+                if ce["key"] in cands:
+                    edges.append((f, bi, ce["key"]))
+    combos = itertools.product(*[[(f.key, i) for i in cands[f.key]] for f in fns])
+    for combo in itertools.islice(combos, 200):
+        d = dict(combo)
+        ok = True
+        zero = {k: set() for k in d}
+        descr = []
+        for (f, bi, gk) in edges:
+            st = block_state(f, bi)
+            if st is None:
+                continue
+            t = f.blocks[bi]["t"]
+            if d[gk] >= len(t["args"]):
+                ok = False
+                break
+            o = t["args"][d[gk]]
+            v, ak = f.operand(st, o)
+            af = st.aff.get(ak) if ak is not None else None
+            if af is None or af[0] != d[f.key] or af[1] < 0:
+                ok = False
+                break
+            if af[1] == 0:
+                zero[f.key].add(gk)
+            else:
+                ty = P.fns[gk].local_ty(d[gk] + 1)
+                if v[1] is None or v[1] >= M.INT[ty][1]:
+                    ok = False
+                    break
+                descr.append("%s -> %s passes depth+%d <= %d" % (short(f.path).split("::")[-1], short(P.fns[gk].path).split("::")[-1], af[1], v[1]))
+        if not ok:
+            continue
+        # zero-weight edges must be acyclic
+        color = {}
+        def dfs(v):
+            color[v] = 1
+            for w in zero[v]:
+                if color.get(w) == 1 or (color.get(w) is None and dfs(w)):
+                    return True
+            color[v] = 2
+            return False
+        if any(color.get(k) is None and dfs(k) for k in zero):
+            continue
+        if not descr:
+            continue
+        return True, "; ".join(sorted(set(descr)))
+    return False, "no consistent bounded depth parameter"
 
 
 def small_or_phys(v):
